@@ -688,6 +688,10 @@ def oracleStep (o : OState) (toks : List String) (impl : String) : OState :=
   let o := { o with nOps := o.nOps + 1, opHist := bump o.opHist op }
   let po := o.ps.getD k {}
   let setPO (o : OState) (x : POracle) : OState := { o with ps := o.ps.setIfInBounds k x }
+  -- C12: a callback installed by print / to_string must not outlive the call
+  let o := if (impl.splitOn " CBLEFT").length > 1 then
+      o.flag "C12" s!"@{k} {op}: the internal print/to_string callback is still installed on the parser object after the call returned; every later call on this object (after reset, on any document) invokes it with a dangling context"
+    else o
   -- C12 regions
   let o := match toks with
     | ["M", "a0"] => { o with region := 1, regionA := [] }
